@@ -65,9 +65,11 @@ def run_kani(engine, tag, tier, hs, log_path, overall_timeout):
         os.remove(json_out)
     per = max([h.timeout for h in hs if h.timeout] + [300 if tier == "quick" else (60 if tier == "dev" else 1800)])
     jobs = max(1, min(JOBS, len(hs)))
-    if any(getattr(h, "heavy", False) for h in hs) and not os.environ.get("VERIF_JOBS"):
-        jobs = min(jobs, 3)
     mem_kb = MEM_KB
+    if any(getattr(h, "heavy", False) for h in hs) and not os.environ.get("VERIF_JOBS"):
+        # measured: 17-24 GB resident for the client read-reply queries (the Oneshot/collect arm is explored too)
+        jobs = min(jobs, 3)
+        mem_kb = max(mem_kb, 30 * 1024 * 1024)
     if engine == "small" and not os.environ.get("VERIF_JOBS"):
         # whole-session glue: 10-20 GB per query
         jobs = max(1, min(4, len(hs)))
